@@ -228,6 +228,34 @@ fn run_fn(name: &str, f: &[Vec<u8>]) -> (String, Vec<Vec<u8>>) {
                 let ty = syn::parse_str::<syn::Type>(&arg(0)).expect("type does not parse");
                 vec![quote::quote!{#ty}.to_string().into_bytes()]
             }
+            "attr_args" => {
+                // [mac, attr]: the real option parser + cross_check, then a canonical dump of every field
+                use syn::parse::Parser;
+                let mac = if arg(0) == "family" { crate::model::Mac::Family } else { crate::model::Mac::Actor };
+                let parser = syn::punctuated::Punctuated::<syn::Meta, syn::Token![,]>::parse_terminated;
+                match parser.parse_str(&arg(1)) {
+                    Err(_) => vec![b"SYNERR".to_vec()],
+                    Ok(nested) => {
+                        let mut aaa = crate::model::attribute::ActorAttributeArguments::from(nested, mac);
+                        aaa.cross_check();
+                        vec![dump_aaa(&aaa, true).into_bytes()]
+                    }
+                }
+            }
+            "example_args" => {
+                // [attr]: the real `example` option parser; dump of (path, main, expand)
+                use syn::parse::Parser;
+                let parser = syn::punctuated::Punctuated::<syn::Meta, syn::Token![,]>::parse_terminated;
+                match parser.parse_str(&arg(0)) {
+                    Err(_) => vec![b"SYNERR".to_vec()],
+                    Ok(nested) => {
+                        let eaa = crate::model::attribute::ExampleAttributeArguments::from(nested);
+                        let ex = eaa.expand.iter().map(|m| match m { crate::model::Mac::Actor => "A", crate::model::Mac::Family => "F" }).collect::<Vec<_>>().join(",");
+                        vec![format!("p={};m={};x={}", eaa.path.as_ref().map(|p| p.to_string_lossy().to_string()).unwrap_or("-".into()),
+                                     if eaa.main { 1 } else { 0 }, ex).into_bytes()]
+                    }
+                }
+            }
             _ => panic!("unknown fn job {}", name),
         }
     }));
@@ -239,6 +267,41 @@ fn run_fn(name: &str, f: &[Vec<u8>]) -> (String, Vec<Vec<u8>>) {
             ("PANIC".into(), vec![panic_msg(e).into_bytes()])
         }
     }
+}
+
+
+fn dump_names(o: &Option<Vec<(syn::Ident, bool)>>) -> String {
+    match o {
+        None => "-".to_string(),
+        Some(v) => format!("({})", v.iter().map(|(i, b)| format!("{}+{}", i, if *b { 1 } else { 0 })).collect::<Vec<_>>().join(",")),
+    }
+}
+
+fn dump_tuple(t: &((bool, bool), (Option<Vec<(syn::Ident, bool)>>, bool), (Option<Vec<(syn::Ident, bool)>>, bool))) -> String {
+    let b = |x: bool| if x { "1" } else { "0" };
+    format!("{}{}.{}.{}.{}.{}", b(t.0 .0), b(t.0 .1), dump_names(&t.1 .0), b(t.1 .1), dump_names(&t.2 .0), b(t.2 .1))
+}
+
+/// canonical text of every field of the parsed options (members included when `top`)
+fn dump_aaa(a: &crate::model::attribute::ActorAttributeArguments, top: bool) -> String {
+    use crate::model::{Channel, FilterSet, Lib, Mac, ModelReceiver};
+    let b = |x: bool| if x { "1" } else { "0" };
+    let oi = |x: &Option<syn::Ident>| x.as_ref().map(|i| i.to_string()).unwrap_or("-".to_string());
+    let lib = match a.lib { Lib::Std => "std", Lib::Smol => "smol", Lib::Tokio => "tokio", Lib::AsyncStd => "async_std" };
+    let ch = match &a.channel { Channel::Unbounded => "u".to_string(), Channel::Buffer(l) => l.base10_digits().to_string() };
+    let ids = |v: &Vec<syn::Ident>| v.iter().map(|i| i.to_string()).collect::<Vec<_>>().join(",");
+    let fl = match &a.filter { None => "-".to_string(), Some(FilterSet::Include(v)) => format!("I:{}", ids(v)), Some(FilterSet::Exclude(v)) => format!("E:{}", ids(v)) };
+    let rc = match a.mod_receiver { ModelReceiver::Slf => "S", ModelReceiver::ArcRwLock => "R", ModelReceiver::ArcMutex => "M" };
+    let mut out = format!("n={};f={};l={};s={};c={};e={}/{}/{};d={};p={};i={};x={};r={};g={};m={};at={}",
+        oi(&a.name), oi(&a.first_name), lib, b(a.show.show), ch, b(a.edit.remove), dump_tuple(&a.edit.script), dump_tuple(&a.edit.live),
+        b(a.debut.active), a.file.as_ref().map(|p| p.to_string_lossy().to_string()).unwrap_or("-".to_string()), b(a.interact), fl, rc,
+        b(a.trait_debug), if a.mac == Mac::Family { "F" } else { "A" }, b(a.edit.attr.is_some()));
+    if top {
+        out.push('[');
+        for (n, m) in &a.members { out.push_str(&format!("{}{{{}}}", n, dump_aaa(m, false))); }
+        out.push(']');
+    }
+    out
 }
 
 thread_local! {
